@@ -261,11 +261,12 @@ func seqExpand(raw json.RawMessage) (interface{}, error) {
 				return
 			}
 			lastClass = w.OpClass(op)
-			// one request takes a few thousand scheduling points (macro-operations: a few hundred thousand);
-			// a request that needs more than 400000 is a retry loop that never ends
-			vrt.SetHorizon(vrt.Steps() + 400_000)
+			// one request takes a few thousand scheduling points; a request (each single one of a macro-operation)
+			// that needs more than 400000 is a retry loop that never ends
+			w.ReqHorizon = 400_000
 			r, implFail, mis := w.Do(op)
-			vrt.SetHorizon(vrt.Steps() + 20_000_000)
+			w.ReqHorizon = 0
+			vrt.SetHorizon(vrt.Steps() + 100_000_000)
 			// the state key is taken before the oracle runs (oracles may restart or probe the server)
 			key := ""
 			if mis == nil || spec.After != nil {
